@@ -295,6 +295,38 @@ def lfp(rules, preds, chosen):
     return true
 
 
+def f1_condition(P):
+    """Structural condition of known finding F1 (false NegativeCycle): some ground rule whose head lies on a cycle of
+    the dependency graph negates an atom that depends on an atom lying on a cycle."""
+    rules, _ = reference(P)
+    dep = {}
+    for h, b, c in rules:
+        dep.setdefault(h, set()).update(a for t, a in b)
+
+    def reach(a):
+        seen, st = set(), [a]
+        while st:
+            x = st.pop()
+            for y in dep.get(x, ()):
+                if y not in seen:
+                    seen.add(y)
+                    st.append(y)
+        return seen
+    memo = {}
+
+    def R(a):
+        if a not in memo:
+            memo[a] = reach(a)
+        return memo[a]
+    oncycle = {a for a in dep if a in R(a)}
+    for h, b, c in rules:
+        if h in oncycle:
+            for t, a in b:
+                if t == "neg" and (a in oncycle or (R(a) & oncycle)):
+                    return True
+    return False
+
+
 def query_instances(P):
     q = []
     for p, args in P["queries"]:
